@@ -385,7 +385,8 @@ impl SendRateComp {
 
     fn update_rto(&mut self, rtt_s: f64, send_rate: u32) -> f64 {
         // See section 4.3 step 3 and section 4.4 step 2
-        let rto_s = (4.0*rtt_s).max((2*MSS) as f64 / send_rate as f64);
+        // The send rate is zero if the peer advertised a receive rate of zero
+        let rto_s = (4.0*rtt_s).max((2*MSS) as f64 / send_rate.max(1) as f64);
         self.rto_ms = Some(s_to_ms(rto_s));
         return rto_s;
     }
